@@ -119,6 +119,22 @@ def r3_frames(rule, root=None):
                 rule.ok("RemapAffine: the target is imported inside the pushed frame")
             else:
                 rule.bad("frames|affine-target", "the RemapAffine arm must push Down(target) last", A.where(fn, arm))
+    # the matrix may be deferred onto the affine stack only when the target is itself an affine remap
+    defer = [i for i in A.find(fn["body"], "If") if any("affine.push(" in A.unparse(s).replace(" ", "") for s in i["then"]["stmts"])]
+    if len(defer) != 1:
+        rule.lost("the `if matches!(target, RemapAffine)` deferral in Context::import")
+    else:
+        c = A.strip(defer[0]["cond"])
+        vs = set()
+        if c.get("k") == "Macro" and c["name"] == "matches" and c.get("pat") is not None:
+            for p in A.flatten_or(c["pat"]):
+                segs, _ = A.pat_variant(p)
+                vs.add(segs[-1] if segs else "?")
+        scr = A.unparse(c.get("expr")).replace(" ", "") if c.get("k") == "Macro" else ""
+        if vs == {"RemapAffine"} and scr == "&**target" and not c.get("guard"):
+            rule.ok("a pending matrix is deferred only onto a directly nested affine remap", file=CTX, line=defer[0]["ln"])
+        else:
+            rule.bad("frames|defer", "the pending affine matrix is deferred when the target matches %s; only a directly nested RemapAffine composes with it - any other node must see the matrix as a frame first" % sorted(vs), A.where(fn, defer[0]))
     if "Action::Pop=>{axes.pop().unwrap();}" in t and "Action::PopAffine=>{affine.pop().unwrap();}" in t:
         rule.ok("Pop / PopAffine pop their own stacks")
     else:
@@ -242,7 +258,7 @@ def run(ctx):
     ctx.guarded(r, r1_who_constructs)
     r = ctx.rule("R2", "consecutive affine remaps flatten as existing * new onto the inner target", 3)
     ctx.guarded(r, r2_flatten)
-    r = ctx.rule("R3", "importer frames: every push is paired with its pop, pushed so that the target runs inside the frame", 6)
+    r = ctx.rule("R3", "importer frames: every push is paired with its pop, pushed so that the target runs inside the frame", 7)
     ctx.guarded(r, r3_frames)
     r = ctx.rule("R4", "the import cache is keyed by (current frame, node pointer)", 4)
     ctx.guarded(r, r4_cache_keys)
